@@ -203,3 +203,47 @@ def _nn(ctx, name):
 slice_task('stop', lambda ctx: (_nn(ctx, 'stop'),), lambda sa: (z3.IntVal(0), sa[0].t))
 slice_task('start-stop', lambda ctx: (_nn(ctx, 'start'), _nn(ctx, 'stop')), lambda sa: (sa[0].t, sa[1].t))
 slice_task('start-none', lambda ctx: (_nn(ctx, 'start'), None), lambda sa: (sa[0].t, None))
+
+
+# ------------------------------------------------------------------------------------------------ tail
+@vc('C13.itertail', functions=[BA + 'itertail'], props=['C13', 'C03'],
+    assumptions=['collections.deque as a FIFO window (T6)', 'invariant rule on the filling loop, stateless-body rule on the emitting loop'])
+def itertail(h):
+    """tail(t, n) = header + the last n data rows (all of them when there are fewer; none for n <= 0), unchanged, in order."""
+    def body(ctx):
+        def keep(k):
+            """number of rows held after data rows 1..k-1 have been seen"""
+            seen = k - 1
+            return z3.If(n.t <= 0, 0, z3.If(seen < n.t, seen, n.t))
+
+        def inv(ls):
+            dq = ls['cache']
+            k = ls.k.t
+            q = smt.fresh_int('q')
+            return z3.And(dq.len == keep(k), dq.lo >= 0,
+                          z3.ForAll([q], z3.Implies(z3.And(dq.lo <= q, q < dq.hi), z3.Select(dq.arr, q) == z3.Select(S.rows, k - dq.hi + q))))
+
+        def emit(ls, x, dout):
+            ctx.oblige('itertail: every row kept in the window is yielded once, as a tuple of itself, in order',
+                       z3.And(dout.len == 1, _t(row_eq(out_row(dout, 0), x))))
+
+        def window(ls, count):
+            dq = ls['cache']
+            q = smt.fresh_int('q')
+            m = keep(S.n)
+            ctx.oblige('itertail: the window that is emitted is exactly the last min(n, #rows) data rows (none for n <= 0), in table order',
+                       z3.And(count == m, z3.ForAll([q], z3.Implies(z3.And(ls.k0.t <= q, q < ls.k0.t + m), z3.Select(dq.arr, q) == z3.Select(S.rows, S.n - m + q - ls.k0.t)))))
+        s1 = LoopSpec(delta=emit, label='window rows')
+        s1.on_exit = window
+        it = h.interp(ctx, loops={(BA + 'itertail', 0): LoopSpec(invariant=inv, label='filling the window'), (BA + 'itertail', 1): s1})
+        it.check_pulls = False
+        S = sym_table(ctx, 'S', nmin=1)
+        n = sym_int('n')
+        res = run_generator(it, closure_of(it, BA + 'itertail'), [S, n])
+        if res.exc is not None:
+            ctx.oblige('itertail: never raises', z3.BoolVal(False), res.exc.origin or '')
+            return
+        if getattr(ctx, 'after_loop', None):
+            pre = ctx.pre_loop_out
+            ctx.oblige('itertail: the header first, once; nothing after the window', z3.And(pre.len == 1, _t(row_eq(out_row(pre, 0), src_row(S, 0))), res.out.len == 0))
+    h.explore(body)
